@@ -159,6 +159,13 @@ impl XmlReader {
                 "Unable to parse file {file_name}: elements are nested more than {MAX_ELEMENT_DEPTH} levels deep"
             )));
         }
+        // every file that is read on behalf of an import is a level of recursion (and a parsed document that is kept):
+        // a chain of thousands of files that import each other in a row would overflow the stack
+        if rust_doc.files_being_read() >= MAX_IMPORT_DEPTH {
+            return Err(WriterError::new(format!(
+                "Unable to read file {file_name}: imports are nested more than {MAX_IMPORT_DEPTH} files deep"
+            )));
+        }
         let doc = roxmltree::Document::parse(xml)
             .map_err(|e| WriterError::new(format!("Unable to parse file {file_name}: {e}")))?;
         let scope = rust_doc.enter_file(&doc);
@@ -305,6 +312,9 @@ impl XmlReader {
 /// The XML parser recurses once per nesting level: a document that is nested tens of thousands of levels deep (less
 /// than 100 kB of text) overflows the stack. No schema or WSDL comes anywhere near this limit.
 const MAX_ELEMENT_DEPTH: usize = 1024;
+
+/// The longest chain of files that import each other one after the other.
+const MAX_IMPORT_DEPTH: usize = 256;
 
 /// The deepest nesting of start tags in an XML text, counted without building anything. Comments, CDATA sections,
 /// processing instructions and declarations are skipped; text that is not well-formed gives some number, and the
